@@ -211,6 +211,68 @@ Definition mon_valid (v : list Z) : bool :=
   ((nthz 2 v <? 0) || (nthz 2 v =? Z.of_nat (List.length (nodup Z.eq_dec ds)))) &&
   forallb (fun p => Bool.eqb (snd p =? 1) (existsb (Z.eqb (fst p)) ds)) probes.
 
+(* ---- 512: derived CheckedBitPattern (C08) ---- *)
+From BM Require Import Model.DeriveChecked.
+Local Open Scope Z_scope.
+Definition leafk_of (z : Z) : leafk := match z with 0 => LAny | 1 => LBool | 2 => LChar | _ => LNonZero end.
+(* prefix encoding: leaf 0 size align kind | struct 1 packed align n T.. | enum 2 rk tagsize signed nvar (disc nf T..).. *)
+Fixpoint parse_cty (fuel : nat) (v : list Z) : option (cty * bool * list Z) :=
+  match fuel with
+  | O => None
+  | S k =>
+      let fix many (n : nat) (v : list Z) : option (list cty * list Z) :=
+        match n with
+        | O => Some ([], v)
+        | S m => match parse_cty k v with
+                 | Some (t, _, r) => match many m r with Some (ts, r') => Some (t :: ts, r') | None => None end
+                 | None => None
+                 end
+        end in
+      match v with
+      | 0 :: sz :: al :: kd :: r => Some (CLeaf (Z.to_N sz) (Z.to_N al) (leafk_of kd), false, r)
+      | 1 :: pk :: al :: n :: r =>
+          match many (Z.to_nat n) r with Some (fs, r') => Some (CStruct (Z.to_N pk) (Z.to_N al) fs, false, r') | None => None end
+      | 2 :: rk :: ts :: sg :: nv :: r =>
+          let fix vars (n : nat) (v : list Z) : option (list (Z * list cty) * list Z) :=
+            match n with
+            | O => Some ([], v)
+            | S m => match v with
+                     | d :: nf :: r1 => match many (Z.to_nat nf) r1 with
+                                        | Some (fs, r2) => match vars m r2 with Some (vs, r3) => Some ((d, fs) :: vs, r3) | None => None end
+                                        | None => None
+                                        end
+                     | _ => None
+                     end
+            end in
+          match vars (Z.to_nat nv) r with Some (vs, r') => Some (CEnum (Z.to_N rk) (Z.to_N ts) vs, sg =? 1, r') | None => None end
+      | _ => None
+      end
+  end.
+
+(* vector: compiled sizeT alignT sizeBits alignBits flag lenenc enc.. lenimg img.. ;  flag: 1 valid, 0 invalid,
+   2 is_valid_bit_pattern and the checked cast disagree, -1 no image *)
+Definition model_checked (v : list Z) : list Z :=
+  let enc := firstn (Z.to_nat (nthz 6 v)) (skipn 7 v) in
+  let rest := skipn (7 + Z.to_nat (nthz 6 v)) v in
+  let img := map Z.to_N (tl rest) in
+  match parse_cty 40 enc with
+  | Some (t, sg, _) =>
+      let '(s, a) := lay t in let '(sb, ab) := lay (bits_of t) in
+      [1; Z.of_N s; Z.of_N a; Z.of_N sb; Z.of_N ab;
+       if nthz 5 v =? -1 then -1 else zb (valid 40 sg t img)] ++ skipn 6 v
+  | None => []
+  end.
+Definition mon_checked (v : list Z) : bool :=
+  let enc := firstn (Z.to_nat (nthz 6 v)) (skipn 7 v) in
+  let rest := skipn (7 + Z.to_nat (nthz 6 v)) v in
+  let img := map Z.to_N (tl rest) in
+  match parse_cty 40 enc with
+  | Some (t, sg, _) =>
+      (nthz 0 v =? 1) && (nthz 1 v =? nthz 3 v) && (nthz 2 v =? nthz 4 v) &&
+      ((nthz 5 v =? -1) || (nthz 5 v =? zb (valid 40 sg t img)))
+  | None => false
+  end.
+
 Definition xmodel2 (a : acase) (v : list Z) : list Z :=
   match a_fn a with
   | 501%N => model_derive_struct v
@@ -218,6 +280,7 @@ Definition xmodel2 (a : acase) (v : list Z) : list Z :=
   | 503%N => model_offset_of v
   | 504%N => model_offset_deref v
   | 511%N => model_enum v
+  | 512%N => model_checked v
   | 513%N => model_minmax v
   | 514%N => model_valid v
   | _ => xmodel a v
@@ -229,6 +292,7 @@ Definition xmonitors2 (a : acase) (v : list Z) : list (N * bool) :=
   | 503%N => [(19%N, mon_offset_of v)]
   | 504%N => [(19%N, mon_offset_deref v)]
   | 511%N => [(6%N, mon_enum v)]
+  | 512%N => [(8%N, mon_checked v)]
   | 513%N => [(6%N, mon_minmax v); (17%N, mon_minmax v)]
   | 514%N => [(6%N, mon_valid v)]
   | _ => xmonitors a v
